@@ -110,7 +110,8 @@ def run_check(prop, repo):
                 classes.append("?")
     hits = {}
     try:
-        ev = json.load(open(os.path.join(VERIF, "build", "evidence-alt", prop + ".json")))
+        import hashlib
+        ev = json.load(open(os.path.join(VERIF, "build", "evidence-alt" + hashlib.md5(repo.encode()).hexdigest()[:6], prop + ".json")))
         hits = ev["coverage"].get("per_class_run_counts", {})
         hits["_runs"] = ev["coverage"].get("runs")
     except Exception:
@@ -119,8 +120,11 @@ def run_check(prop, repo):
     return p.returncode, classes, p.stdout[-2000:] + p.stderr[-2000:]
 
 
-def cleanup_alt():
-    for d in glob.glob(os.path.join(VERIF, "build", "*-alt")) + glob.glob(os.path.join(VERIF, "build", "*_*-alt")):
+def cleanup_alt(repo=None):
+    """drop the builds and evidence of one scratch tree (or, with no argument, of all of them)"""
+    import hashlib
+    pat = "*-alt" + (hashlib.md5(repo.encode()).hexdigest()[:6] if repo else "*")
+    for d in glob.glob(os.path.join(VERIF, "build", pat)):
         shutil.rmtree(d, ignore_errors=True)
 
 
@@ -162,8 +166,7 @@ def mutants(args):
             sys.stdout.flush()
         finally:
             shutil.rmtree(d, ignore_errors=True)
-    cleanup_alt()
-    shutil.rmtree(os.path.join(VERIF, "replays"), ignore_errors=True)
+            cleanup_alt(d)
     out = os.path.join(VERIF, "evidence", "selftest_mutants.json")
     prev = {}
     if os.path.exists(out) and flt != "*":
@@ -214,8 +217,7 @@ def seeded(args):
             sys.stdout.flush()
         finally:
             shutil.rmtree(d, ignore_errors=True)
-    cleanup_alt()
-    shutil.rmtree(os.path.join(VERIF, "replays"), ignore_errors=True)
+            cleanup_alt(d)
     out = os.path.join(VERIF, "evidence", "selftest_seeded.json")
     prev = {}
     if os.path.exists(out) and flt != "*":
